@@ -200,11 +200,12 @@ def run_check(mod, tier, seed, replay=None):
     t0 = time.time()
     prop = mod.ID
     print("[%s] tier=%s seed=%d" % (prop, tier, seed), flush=True)
-    lean = leanside.prepare(prop, mod.TARGETS)
+    lean = leanside.prepare(prop, mod.TARGETS, tier=tier)
     obligations = lean["obligations"]
     n_obl = len(obligations)
     n_ok = sum(1 for o in obligations if o["ok"])
-    proof_broken = (not lean["build_ok"]) or n_ok != n_obl or bool(lean["forbidden"])
+    lc = lean.get("leanchecker")
+    proof_broken = (not lean["build_ok"]) or n_ok != n_obl or bool(lean["forbidden"]) or (lc is not None and not lc["ok"])
     print("[%s] lean build_ok=%s obligations=%d discharged=%d forbidden=%d (%.1fs)" % (
         prop, lean["build_ok"], n_obl, n_ok, len(lean["forbidden"]), lean["wall"]), flush=True)
     if not lean.get("driver_ok", False):
@@ -292,6 +293,7 @@ def run_check(mod, tier, seed, replay=None):
                 "obligation_names": [o["name"] for o in obligations],
                 "undischarged": [o for o in obligations if not o["ok"]],
                 "generated_files": lean["gen"],
+                "leanchecker": ({"modules": len(lc["modules"]), "ok": lc["ok"]} if lc else "not run (quick tier)"),
                 "evaluations": stats["evaluations"],
                 "distinct_nontrivial": len(stats["nontrivial_specs"]),
                 "distinct_nontrivial_classes": len(stats["nontrivial_classes"]),
